@@ -4,6 +4,7 @@ go 1.23.3
 
 require (
 	github.com/BondMachineHQ/BondMachine v0.0.0
+	google.golang.org/protobuf v1.36.6
 	pgregory.net/rapid v1.3.0
 )
 
@@ -21,7 +22,6 @@ require (
 	golang.org/x/net v0.39.0 // indirect
 	golang.org/x/sync v0.13.0 // indirect
 	golang.org/x/sys v0.32.0 // indirect
-	google.golang.org/protobuf v1.36.6 // indirect
 )
 
 replace github.com/BondMachineHQ/BondMachine => /repo
